@@ -668,3 +668,48 @@ pub open spec fn mdat_size_patch(d: Seq<u8>, mdat_pos: int, size: int) -> Seq<u8
         wr(d, mdat_pos, be_bytes(size as nat, 4))
     }
 }
+
+// ---------------------------------------------------------------- the finished file (muxer half of C01 / C02 / C13 / C14)
+/// bytes of a track that are still buffered when write_end is called (its last, unfinished chunk)
+pub open spec fn tw_pending_len(w: Mp4TrackWriter) -> int { if w.chunk_samples > 0 { w.chunk_buffer@.len() as int } else { 0 } }
+pub open spec fn pending_sum(v: Seq<Mp4TrackWriter>, n: int) -> int
+    decreases n
+{
+    if n <= 0 { 0 } else { pending_sum(v, n - 1) + tw_pending_len(v[n - 1]) }
+}
+/// the media data after write_end has flushed the pending chunk of the first n tracks, one after the other, from position p
+pub open spec fn flush_all(d: Seq<u8>, p: int, v: Seq<Mp4TrackWriter>, n: int) -> Seq<u8>
+    decreases n
+{
+    if n <= 0 { d } else {
+        let dk = flush_all(d, p, v, n - 1);
+        if v[n - 1].chunk_samples > 0 { wr(dk, p + pending_sum(v, n - 1), v[n - 1].chunk_buffer@) } else { dk }
+    }
+}
+/// t is the track box that finishing track writer w produces when the stream stands at pos: the same per-sample views, mutually
+/// consistent tables, chunk offsets = the recorded ones plus pos for the pending chunk (32-bit table iff they all fit),
+/// headers and sample description as configured (up to bufferSizeDB)
+pub open spec fn trak_of_track(t: TrakBox, w: Mp4TrackWriter, pos: u64) -> bool {
+    let s = t.mdia.minf.stbl;
+    &&& muxed_tables_consistent(s, tw_n(w))
+    &&& view_sizes(s) == view_sizes(tw_stbl(w)) && view_durs(s) == view_durs(tw_stbl(w))
+    &&& view_cts(s, tw_n(w)) == view_cts(tw_stbl(w), tw_n(w)) && view_sync(s, tw_n(w)) == view_sync(tw_stbl(w), tw_n(w))
+    &&& (s.stco is Some) != (s.co64 is Some)
+    &&& (s.stco matches Some(a) ==> offsets_fit_u32(final_offsets(w, pos)) && a.entries@.len() == final_offsets(w, pos).len()
+            && forall|i: int| 0 <= i < a.entries@.len() ==> (#[trigger] a.entries@[i]) as u64 == final_offsets(w, pos)[i])
+    &&& (s.co64 matches Some(c) ==> !offsets_fit_u32(final_offsets(w, pos)) && c.entries@ == final_offsets(w, pos))
+    &&& t.mdia.mdhd == w.trak.mdia.mdhd && t.tkhd == w.trak.tkhd && t.mdia.hdlr == w.trak.mdia.hdlr
+    &&& stsd_nobuf(s.stsd) == stsd_nobuf(tw_stbl(w).stsd)
+}
+/// what Mp4Writer::write_end leaves in the stream, given the writer state m0 it started from: the pending chunks appended in
+/// track order, the media-data size patched, and then the movie box `moov` whose i-th track is the finished i-th track writer
+pub open spec fn mw_final<W: Stream>(m0: Mp4Writer<W>, out: Seq<u8>, moov: MoovBox) -> bool {
+    let n = m0.tracks@.len() as int;
+    let p0 = m0.writer.pos() as int;
+    let pn = p0 + pending_sum(m0.tracks@, n);
+    &&& moov.traks@.len() == n
+    &&& forall|i: int| 0 <= i < n ==> trak_of_track(#[trigger] moov.traks@[i], m0.tracks@[i], (p0 + pending_sum(m0.tracks@, i)) as u64)
+    &&& moov.mvhd.timescale == m0.timescale && moov.mvhd.duration == m0.duration
+    &&& moov.mvhd.version == (if m0.duration > 0xffff_ffff { 1u8 } else { 0u8 }) && moov.mvex is None && moov.meta is None && moov.udta is None
+    &&& (moov_exact(moov) ==> out == wr(mdat_size_patch(flush_all(m0.writer.data(), p0, m0.tracks@, n), m0.mdat_pos as int, pn - m0.mdat_pos), pn, moov_bytes(moov)))
+}
